@@ -261,6 +261,56 @@ def check_float_decimal(ctx, bt, n):
         ctx.count("mixed", "mul float" if isinstance(q, float) else "mul Decimal")
 
 
+def check_float_products_by_magnitude(ctx, bt, n):
+    """a*float where binary floating point is tempting: tick counts no double holds (53 bits and more, low bits just beside half an ulp)
+    times floats chosen so that the exact product has every magnitude around 2**53 ticks and below - the result is within one tick of
+    the exact rational product there as everywhere; and values that were LOOKED AT (repr, str, total_seconds, precision_total_seconds,
+    hash) before being negated / made absolute and multiplied behave like fresh ones."""
+    TD = bt.TimeDelta
+    rng = ctx.rng
+    for i in range(n):
+        bits = rng.choice([53, 54, 56, 60, 64, 70, 90, 126])
+        k = bits - 53
+        m = rng.getrandbits(52) | (1 << 52)
+        a = (m << k) + ((1 << (k - 1)) + rng.choice([-1, 1, 0]) if k > 0 else 0)          # beside a rounding tie of int -> double
+        a = rng.choice([1, -1]) * a
+        target = rng.choice([rng.uniform(0.85, 1.0) * 2.0 ** 53, rng.uniform(0.5, 1.0) * 2.0 ** 53, rng.uniform(1.0, 2.0) * 2.0 ** 53, 2.0 ** rng.uniform(30, 52), 2.0 ** rng.uniform(53, 70)])
+        q = rng.choice([1, -1]) * target / abs(a)
+        if q == 0.0:
+            continue
+        exact = Fraction(a) * Fraction(q)
+        o = outcome(operator.mul, TD.from_ticks(a), q)
+        ctx.case(("mulq-magnitude", bits, i))
+        ctx.count("mixed", "mul float (products around 2**53 ticks)")
+        if o[0] != "ok" or not isinstance(o[1], TD) or abs(o[1].ticks - exact) > 1:
+            ctx.violation(op="mul", a=a, q=repr(q), observed=show(o), required=f"within one tick of {float(exact)!r} (exact product of a tick count of {bits} bits)")
+            return
+    looks = [("repr", repr), ("str", str), ("precision_total_seconds", lambda x: x.precision_total_seconds()), ("total_seconds", lambda x: x.total_seconds()), ("hash", hash),
+             ("fields", lambda x: (x.days, x.seconds, x.microseconds, x.femtoseconds, x.yoctoseconds)), ("to_tuple", lambda x: x.to_tuple())]
+    derive = [("-a", lambda x: -x), ("abs(a)", abs), ("+a", lambda x: +x), ("a + 0", lambda x: x + TD.from_ticks(0)), ("a - 0", lambda x: x - TD.from_ticks(0)), ("a * 1", lambda x: x * 1),
+              ("copy", lambda x: __import__("copy").copy(x))]
+    for whole in (3, 10 ** 8 + 7, 10 ** 9 * 4 + 1, 123_456_789_012, (1 << 62) + 12345):
+        for sign in (1, -1):
+            for lname, look in looks:
+                for dname, dv in derive:
+                    a = sign * ((whole << 64) + 0x9E3779B97F4A7C15)
+                    x = TD.from_ticks(a)
+                    outcome(look, x)
+                    r = outcome(dv, x)
+                    if r[0] != "ok":
+                        continue
+                    y = r[1]
+                    for q in (1.0, 1.5, Decimal("2.5"), 1e-3, Decimal("1")):
+                        exact = Fraction(y.ticks) * Fraction(q)
+                        if not (I128_MIN <= exact <= I128_MAX):
+                            continue
+                        o = outcome(operator.mul, y, q)
+                        ctx.case(("looked-at", whole, sign, lname, dname, repr(q)))
+                        if o[0] != "ok" or abs(o[1].ticks - exact) > 1:
+                            ctx.violation(op="mul", history=f"{lname}(a); b = {dname}; b * {q!r}", a=a, observed=show(o), required=f"within one tick of {float(exact)!r}")
+                            return
+
+
 def run(ctx):
     import nitypes.bintime as bt
     import props.timeval as tv
@@ -393,6 +443,7 @@ def run(ctx):
     ctx.extra["mixed_cells"] = len(MIXED_CELLS)
     ctx.extra["mixed_cases"] = len(reqs)
     check_float_decimal(ctx, bt, 300 if ctx.quick else 20000)
+    check_float_products_by_magnitude(ctx, bt, 6000 if ctx.quick else 200000)
     for s in pairs[5:8]:
         ctx.sample({"a_ticks": s[0], "b_ticks": s[1], "ops": "add sub neg abs mul floordiv mod divmod cmp hash"})
     for q, w in reqs[:200:40]:
